@@ -53,7 +53,7 @@ struct CountdownObserver : Observer<Args...> {
 };
 
 struct Cover {
-    uint64_t thrown = 0, countdownObservers = 0, longLifeRuns = 0, longLifeCycles = 0, burstObservers = 0;
+    uint64_t thrown = 0, countdownObservers = 0, chainedRuns = 0, longLifeRuns = 0, longLifeCycles = 0, burstObservers = 0;
     uint64_t histories = 0, ops = 0, notifies = 0, nestedNotifies = 0, calls = 0, inRoundActions = 0, staleRejected = 0;
     uint64_t selfUnsub = 0, unsubOther = 0, lazyRemovals = 0, handleMoves = 0, nontrivialCases = 0, maxDepth = 0, tokensDestroyed = 0;
     std::map<std::string, uint64_t> opCount, sigCount, actionCount;
@@ -464,6 +464,30 @@ void runCase(uint64_t seed, int steps, bool scripts, const char *sig) {
 // dozen steps reaches: one Subject lives through more than 2^16 subscriptions while early observers stay subscribed
 // (flat history, C05), and one callback subscribes and drops a burst of 2^8 / 2^16 / 2^17 (+-1) observers before it
 // unsubscribes a neighbour that has not been called yet (C10). Results are known exactly.
+// Two Subjects of the same type, an observer of the first notifies the second from inside its callback: both rounds are
+// complete and in order (whatever a Subject keeps per round belongs to that Subject and that round).
+void runChained(rt::Rng rng) {
+    Subject<int> a, b;
+    std::vector<int> order;
+    int nA = (int) rng.range(2, 5), nB = (int) rng.range(1, 4), bridge = (int) rng.below((uint64_t) nA);
+    gProp = "C10";
+    gHist = "two Subject<int>: observer #" + std::to_string(bridge) + " of " + std::to_string(nA) + " on the first notifies the second (" + std::to_string(nB) + " observers) from its callback";
+    rt::crumb("%s", gHist.c_str());
+    std::vector<Subscription<int>> keep;
+    for (int i = 0; i < nB; ++i) keep.push_back(b.subscribe([&order, i](int v) { order.push_back(1000 + i * 10 + v); }));
+    for (int i = 0; i < nA; ++i) keep.push_back(a.subscribe([&, i](int v) { order.push_back(100 + i); if (i == bridge) b.notify(v + 1); }));
+    for (int round = 0; round < 2 && !gCaseFailed; ++round) {
+        order.clear();
+        a.notify(round);
+        std::vector<int> want;
+        for (int i = 0; i < nA; ++i) { want.push_back(100 + i); if (i == bridge) for (int k = 0; k < nB; ++k) want.push_back(1000 + k * 10 + round + 1); }
+        if (order != want) fail("C10", "chained-delivery", "notify", gHist + ": the calls were not [first Subject's observers in order, with the second Subject's complete round inside] (" + std::to_string(order.size()) + " calls, expected " + std::to_string(want.size()) + ")");
+    }
+    ++C.chainedRuns;
+    ++C.histories;
+    if (!gCaseFailed) { ++C.nontrivialCases; rt::Hash h; for (char c : gHist) h.add((uint64_t) c); C.fps.push_back(h.get()); }
+}
+
 void runLongLife(rt::Rng rng, bool burst) {
     Subject<int> subj;
     std::vector<int> order;   // ids in call order of the current round
@@ -558,7 +582,7 @@ int main(int argc, char **argv) {
         rt::Rng rng(rt::mix(rt::st().seed, c));
         gHist.clear();
         gCaseFailed = false;
-        if (rng.chance((unsigned) rt::optInt("longlife", 3))) { runLongLife(rng, allScripted || rng.chance(400)); continue; }
+        if (rng.chance((unsigned) rt::optInt("longlife", 3))) { if (rng.chance(300)) runChained(rng); else runLongLife(rng, allScripted || rng.chance(400)); continue; }
         bool scripts = allScripted || rng.chance(scriptShare);
         gProp = scripts ? "C10" : "C05";
         int maxSteps = scripts ? maxStepsScripted : maxStepsFlat;
@@ -578,7 +602,7 @@ int main(int argc, char **argv) {
                    .kv("nestedNotifies", C.nestedNotifies).kv("calls", C.calls).kv("inRoundActions", C.inRoundActions)
                    .kv("staleRejected", C.staleRejected).kv("selfUnsub", C.selfUnsub).kv("unsubOther", C.unsubOther)
                    .kv("lazyRemovals", C.lazyRemovals).kv("handleMoves", C.handleMoves).kv("nontrivialCases", C.nontrivialCases)
-                   .kv("maxDepth", C.maxDepth).kv("tokensDestroyed", C.tokensDestroyed).kv("callbacksThatThrew", C.thrown).kv("countdownObservers", C.countdownObservers).kv("longLifeRuns", C.longLifeRuns).kv("longLifeCycles", C.longLifeCycles).kv("burstObservers", C.burstObservers)
+                   .kv("maxDepth", C.maxDepth).kv("tokensDestroyed", C.tokensDestroyed).kv("callbacksThatThrew", C.thrown).kv("countdownObservers", C.countdownObservers).kv("chainedSubjectRuns", C.chainedRuns).kv("longLifeRuns", C.longLifeRuns).kv("longLifeCycles", C.longLifeCycles).kv("burstObservers", C.burstObservers)
                    .raw("opCount", rt::jsonCounts(C.opCount)).raw("signatures", rt::jsonCounts(C.sigCount))
                    .raw("inRoundActionKinds", rt::jsonCounts(C.actionCount)).raw("samples", rt::jsonArray(C.samples, false)));
     return 0;
